@@ -326,7 +326,7 @@ func runK7pair(r *rng, n int) {
 			if k7fenced[b.name] {
 				fb = 1
 			}
-			outs[i] = out{fmt.Sprintf("k7pair a=%s ca=%s oa=%s xa=%s b=%s cb=%s ob=%s xb=%s fb=%d cross=%d => overlap=%d entered=%d answered=%d", a.name, a.class, a.on, k7excl(a, 0), b.name, b.class, b.on, k7excl(b, c), fb, c, res[0], res[1], res[2]), a.class + "/" + b.class}
+			outs[i] = out{fmt.Sprintf("k7pair a=%s ca=%s oa=%s xa=%s b=%s cb=%s ob=%s xb=%s fb=%d cross=%d => overlap=%d entered=%d answered=%d bdone=%d", a.name, a.class, a.on, k7excl(a, 0), b.name, b.class, b.on, k7excl(b, c), fb, c, res[0], res[1], res[2], res[3]), a.class + "/" + b.class}
 		}(i)
 	}
 	wg.Wait()
@@ -338,7 +338,7 @@ func runK7pair(r *rng, n int) {
 	}
 }
 
-func k7pairOnce(r *rng, a, b k7op, cross bool, wait time.Duration) ([3]int, bool) {
+func k7pairOnce(r *rng, a, b k7op, cross bool, wait time.Duration) ([4]int, bool) {
 	s := newK7(r, 2)
 	defer s.close()
 	// tree: root / d (D) / f (F);  root / g (G). Both connections bind the same paths.
@@ -348,11 +348,11 @@ func k7pairOnce(r *rng, a, b k7op, cross bool, wait time.Duration) ([3]int, bool
 		if s.walk(c, 0, 1, p9.ModeDirectory|0755, "d") < 0 || s.walk(c, 1, 2, p9.ModeRegular|0644, "f") < 0 ||
 			s.walk(c, 1, 3, p9.ModeRegular|0644, "f") < 0 || s.walk(c, 0, 4, p9.ModeDirectory|0755, "g") < 0 ||
 			s.walk(c, 0, 5, p9.ModeDirectory|0755, "d") < 0 || s.walk(c, 0, 6, p9.ModeDirectory|0755, "d") < 0 {
-			return [3]int{}, false
+			return [4]int{}, false
 		}
 		if s.call(c, 12, map[string]interface{}{"fid": uint64(3), "Flags": uint64(2)}) != 13 ||
 			s.call(c, 12, map[string]interface{}{"fid": uint64(5), "Flags": uint64(0)}) != 13 {
-			return [3]int{}, false
+			return [4]int{}, false
 		}
 	}
 	cb := 0
@@ -369,7 +369,7 @@ func k7pairOnce(r *rng, a, b k7op, cross bool, wait time.Duration) ([3]int, bool
 	s.send(0, ta, va)
 	if !ga.waitEntered(3 * time.Second) {
 		close(ga.release)
-		return [3]int{}, false
+		return [4]int{}, false
 	}
 	gb := s.g.arm(b.meth, 0)
 	gb.skip = b.skip
@@ -381,16 +381,27 @@ func k7pairOnce(r *rng, a, b k7op, cross bool, wait time.Duration) ([3]int, bool
 	} else if os.Getenv("K7DEBUG") == a.name+","+b.name {
 		pprof.Lookup("goroutine").WriteTo(os.Stderr, 2)
 	}
+	// a request that could enter the backend while the first is held is also *answered* while the first
+	// is still held (C06: a blocked request delays only what the contract orders after it)
+	bdone, early := 0, 0
+	if overlap == 1 {
+		close(gb.release)
+		if _, _, _, ok := s.recvReply(cb, 1500*time.Millisecond); ok {
+			bdone, early = 1, 1
+		}
+	}
 	close(ga.release)
 	entered := 1
 	if overlap == 0 && !gb.waitEntered(3*time.Second) {
 		entered = 0 // the second never reached the backend (refused or hung)
 	}
-	close(gb.release)
+	if overlap == 0 {
+		close(gb.release)
+	}
 	// both must be answered
-	answered := 0
+	answered := early
 	if cb == 0 {
-		for k := 0; k < 2; k++ {
+		for k := early; k < 2; k++ {
 			if _, _, _, ok := s.recvReply(0, 5*time.Second); ok {
 				answered++
 			}
@@ -399,14 +410,16 @@ func k7pairOnce(r *rng, a, b k7op, cross bool, wait time.Duration) ([3]int, bool
 		if _, _, _, ok := s.recvReply(0, 5*time.Second); ok {
 			answered++
 		}
-		if _, _, _, ok := s.recvReply(1, 5*time.Second); ok {
-			answered++
+		if early == 0 {
+			if _, _, _, ok := s.recvReply(1, 5*time.Second); ok {
+				answered++
+			}
 		}
 	}
 	if answered < 2 {
 		noteHang()
 	}
-	return [3]int{overlap, entered, answered}, true
+	return [4]int{overlap, entered, answered, bdone}, true
 }
 
 // ---- K7 flush -----------------------------------------------------------------------------------
